@@ -62,6 +62,9 @@ const OPS_FULL: &[&[u8]] = &[
     // wrong parameter count on the built-in queries: one error, nothing read
     b"SYST:ERR? 1\n",
     b"SYST:ERR:COUN? 0\n",
+    // a queue query between two faults of one message: if it answers, the later fault must be queued too
+    b"V 300;:SYST:ERR?;:V 'x'\n",
+    b"CE1;:SYST:ERR:COUN?;:CE1\n",
 ];
 
 const OPS_MEDIUM: &[&[u8]] = &[b"SYST:ERR?\n", b"SYST:ERR:COUN?\n", b"V 300\n", b"ZZ\n", b"CE1\n", b"OK\n", b"V 300;:V 'x'\n", b"SYST:ERR:NEXT?;COUN?\n"];
@@ -427,6 +430,74 @@ fn direct<const CAP: usize>(depth: usize, g: &mut Groups, st: &mut Stats) {
     }
 }
 
+/// Conservation with a *bounded* response writer (the situation inside `process::<N>`): every
+/// error that was queued must come back exactly once, in order - either in a response or when
+/// the queue is drained - also when a response does not fit the writer.  The library queues an
+/// additional -223 / -310 for a response that does not fit; those are filtered out.
+fn conservation<const W: usize>(g: &mut Groups, st: &mut Stats, depth: usize) {
+    let ops: Vec<Op> = [&b"V 300\n"[..], b"V 'x'\n", b"T 5\n", b"CE1\n", b"SYST:ERR?\n", b"SYST:ERR?;ERR?\n", b"SYST:ERR:COUN?;NEXT?\n"]
+        .iter()
+        .map(|t| describe(Box::leak(t.to_vec().into_boxed_slice())))
+        .collect();
+    for len in 1..=depth {
+        mc::util::product(ops.len(), len, |idx| {
+            st.transitions += 1;
+            let mut q: Qi<10> = Qi::new();
+            let mut pushed: Vec<i16> = vec![];
+            let mut returned: Vec<i16> = vec![];
+            let mut ok_run = true;
+            for &i in idx {
+                for m in &ops[i].micro {
+                    if let Micro::Push(e) = m {
+                        pushed.push(e.number());
+                    }
+                }
+                let mut w: heapless::Vec<u8, W> = heapless::Vec::new();
+                let o = run_on(&mut q, ops[i].text, &mut w, Pattern::NONE);
+                st.execs += 1;
+                if o.end != End::Returned {
+                    ok_run = false;
+                    break;
+                }
+                for line in w.split(|&b| b == b'\n') {
+                    if let Some(pos) = line.iter().position(|&b| b == b',') {
+                        if let Ok(n) = std::str::from_utf8(&line[..pos]).unwrap_or("x").parse::<i16>() {
+                            if n != 0 {
+                                returned.push(n);
+                            }
+                        }
+                    }
+                }
+            }
+            if !ok_run {
+                return;
+            }
+            while let Some(e) = q.errors.pop_error() {
+                returned.push(e.number());
+                if returned.len() > 64 {
+                    break;
+                }
+            }
+            let seen: Vec<i16> = returned.iter().copied().filter(|n| *n != -223 && *n != -310).collect();
+            if seen != pushed {
+                let hist: Vec<u8> = idx.iter().map(|&i| i as u8).collect();
+                let feat = vec![("kind", "entry-removed-but-never-returned".to_string()), ("response_writer", "bounded".to_string())];
+                g.add("queue-conservation", &feat, (hist.len(), &hist), || {
+                    (
+                        json!({"cap": 10, "alphabet": "conservation", "writer": W, "history": hist, "messages": idx.iter().map(|&i| show(ops[i].text)).collect::<Vec<_>>()}),
+                        format!(
+                            "response writer of {W} bytes, messages {:?}: errors queued {:?}, errors returned by queries or still in the queue {:?} - an entry was removed without being returned",
+                            idx.iter().map(|&i| show(ops[i].text)).collect::<Vec<_>>(),
+                            pushed,
+                            seen
+                        ),
+                    )
+                });
+            }
+        });
+    }
+}
+
 fn replay(path: &str) -> ! {
     let j: J = serde_json::from_str(&std::fs::read_to_string(path).unwrap()).unwrap();
     let w = &j["witness"];
@@ -438,7 +509,14 @@ fn replay(path: &str) -> ! {
     for r in 0..2 {
         let mut g = Groups::new();
         let mut st = Stats::default();
-        if alpha == "direct" {
+        if alpha == "conservation" {
+            match w["writer"].as_u64().unwrap_or(32) {
+                16 => conservation::<16>(&mut g, &mut st, hist.len()),
+                24 => conservation::<24>(&mut g, &mut st, hist.len()),
+                48 => conservation::<48>(&mut g, &mut st, hist.len()),
+                _ => conservation::<32>(&mut g, &mut st, hist.len()),
+            }
+        } else if alpha == "direct" {
             // re-run the whole (small) direct exploration for this capacity
             match cap {
                 1 => direct::<1>(hist.len(), &mut g, &mut st),
@@ -515,6 +593,13 @@ fn main() {
         r.push(go!(6, &medium, 9, "medium"));
         r.push(go!(8, &small, 14, "small"));
     }
+    let mut cst = Stats::default();
+    let cdepth = if thorough { 6 } else { 5 };
+    conservation::<16>(&mut out.groups, &mut cst, cdepth);
+    conservation::<24>(&mut out.groups, &mut cst, cdepth);
+    conservation::<32>(&mut out.groups, &mut cst, cdepth);
+    conservation::<48>(&mut out.groups, &mut cst, cdepth);
+    r.push((0, cst.transitions, cst.execs, 0));
     let states: u64 = r.iter().map(|x| x.0).sum();
     let transitions: u64 = r.iter().map(|x| x.1).sum();
     let execs: u64 = r.iter().map(|x| x.2).sum();
@@ -538,7 +623,8 @@ fn main() {
         "bounds",
         json!({"operations_full": full.iter().map(|o| json!({"message": show(o.text), "effect": format!("{:?}", o.micro)})).collect::<Vec<_>>(),
                "operations_small": small.iter().map(|o| show(o.text)).collect::<Vec<_>>(),
-               "operations_medium": OPS_MEDIUM.iter().map(|o| show(o)).collect::<Vec<_>>(), "per_capacity": per_cap}),
+               "operations_medium": OPS_MEDIUM.iter().map(|o| show(o)).collect::<Vec<_>>(), "per_capacity": per_cap,
+               "bounded_writer_conservation": {"writers": [16, 24, 32, 48], "operations": 7, "max_sequence_length": cdepth, "sequences": cst.transitions}}),
     );
     out.cov("overflow_states_visited", overflow);
     out.cov("samples", json!([["V 300\\n", "CE1\\n", "ZZ\\n", "SYST:ERR?\\n", "SYST:ERR:NEXT?;COUN?\\n"], ["@\\n", "@\\n", "SYST:ERR:COUN?;:V 'x'\\n"]]));
